@@ -163,7 +163,11 @@ func (s *shapeGen) oneTx(ty string, vals map[string]string, from string) {
 		}
 		parts = append(parts, fs.name+"="+v)
 	}
-	g.tx(ty, from, strings.Join(parts, " "), "")
+	plan := ""
+	if strings.HasPrefix(ty, "DepositForBurn") && g.r.Chance(1, 2) {
+		plan = "ss" // permissive ledger: accounts without a balance reach the code after the transfer and the burn
+	}
+	g.tx(ty, from, strings.Join(parts, " "), plan)
 }
 
 func genShapes(g *Gen, n int) {
@@ -207,7 +211,10 @@ func genShapes(g *Gen, n int) {
 		if nilAbsent {
 			g.line("NILABSENT v=1")
 		}
-		for _, ty := range txOrder {
+		for ti, ty := range txOrder {
+			if ti > 0 && st != "after-history" {
+				f.Init() // every transaction type starts from the same state: earlier types (pause, role updates) must not mask later ones
+			}
 			specs := txShapes[ty]
 			base := map[string]string{}
 			lists := map[string][]string{}
